@@ -60,7 +60,7 @@ func coreCfg() gen.ExprCfg {
 // specification) assigns.
 func TestC01_Model(t *testing.T) {
 	c := collector("C01", "model")
-	rapid.Check(t, func(t *rapid.T) {
+	check(t, func(t *rapid.T) {
 		doc := gen.Doc(t, docCfg())
 		g := &gen.G{T: t, Root: doc, Cfg: coreCfg()}
 		e := g.Expr(doc, 0)
